@@ -105,8 +105,11 @@ Section Spec.
              (t || negb (forallb honest_id peers)), [])
     | OGet _ d =>
         (mkC l (S n) (c_conns s) (c_junk s) (c_pconn s) t,
+         (* nil is the documented answer for "no set was ever given" (everybody valid);
+            once a set was given -- an empty one included -- the read-back is the list of
+            members, for an empty or never-set identifier the EMPTY list, not nil *)
          tag t true (clause 5 (match x with
-                   | XGot None => match spec_members l (src_sid d) with [] => true | _ => false end
+                   | XGot None => no_set_given l
                    | XGot (Some got) => same_set (spec_members l (src_sid d)) got
                    | _ => false
                    end)))
